@@ -31,6 +31,7 @@ var (
 	flagList     = flag.Bool("list", false, "list rules")
 	flagVerbose  = flag.Bool("v", false, "print every obligation")
 	flagNoCtl    = flag.Bool("nocontrols", false, "skip positive controls")
+	flagDumpW    = flag.Bool("dumpwrites", false, "calibration: print every non-local write with its target origin")
 	flagJSONOut  = flag.String("json", "", "write all obligations as json to this file (for the variant audit)")
 )
 
@@ -63,6 +64,15 @@ func main() {
 		for _, r := range allRules {
 			fmt.Printf("%s\t%s\tfloor=%d\t%s\n", r.Prop, r.ID, r.Floor, r.Doc)
 		}
+		return
+	}
+	if *flagDumpW {
+		ctx, err := loadCtx(*flagRepo, *flagGoarch, nil, false)
+		if err != nil {
+			fmt.Println("BROKEN", err)
+			os.Exit(2)
+		}
+		dumpWrites(ctx)
 		return
 	}
 	if *flagReplay != "" {
